@@ -11,25 +11,27 @@ from pyvc.bounded import Part, guarded  # noqa: E402
 _METRICS = {"B": ("BRANCH",), "L": ("LINE",), "BL": ("BRANCH", "LINE")}
 
 
-def run_hprog(part, tier, seed, judge, metric_keys):
-    """Drive every (function, argument vector) of the H-prog module: the uninstrumented run under sys.monitoring and the
-    run of the module instrumented with each metric subset under the real tracer; `judge` compares one pair of runs."""
+def run_hprog(part, tier, seed, judge, metric_keys, source=None, vectors=None, tag="hprog"):
+    """Drive every (function, argument vector) of the H-prog module (or of another module given by `source` and `vectors`): the
+    uninstrumented run under sys.monitoring and the run of the module instrumented with each metric subset under the real
+    tracer; `judge` compares one pair of runs."""
     import shutil, sys, tempfile  # noqa: E401
     import pynguin.configuration as config
     from . import hprog as H
+    vectors = vectors or H.argument_vectors
     d = tempfile.mkdtemp(prefix="hprog_")
     try:
-        plain, ppath = H.load_plain("hprog_plain", d)
-        vec_p = H.argument_vectors(plain)
+        plain, ppath = H.load_plain(f"{tag}_plain", d, source)
+        vec_p = vectors(plain)
         base = {}
         for fn, facts in vec_p.items():
             for k, f in enumerate(facts):
                 base[(fn, k)] = H.monitored(getattr(plain, fn), f(), ppath)
         for mk in metric_keys:
             metrics = {config.CoverageMetric[m] for m in _METRICS[mk]}
-            name = f"hprog_inst_{mk}"
-            inst, sp, _ipath = H.load_instrumented(name, d, metrics)
-            vec_i = H.argument_vectors(inst)
+            name = f"{tag}_inst_{mk}"
+            inst, sp, _ipath = H.load_instrumented(name, d, metrics, source)
+            vec_i = vectors(inst)
             tracer = sp.instrumentation_tracer
             imp = tracer.import_trace
             for fn, facts in vec_i.items():
@@ -58,8 +60,12 @@ def judge_branches(part, mk, fn, k, base, res, trace, sp, imp):
     if "B" not in mk:
         return
     rep = set()
+    # every trace starts from the import trace, so for a predicate that already ran while the module was imported the report
+    # cannot tell the import from this call: the lines of such predicates are left out on both sides
+    imp_lines = {sp.existing_predicates[pid].line_no for pid in imp.executed_predicates if pid in sp.existing_predicates}
+    branches = {b for b in branches if b[1] not in imp_lines}
     for pid, meta in sp.existing_predicates.items():
-        if pid not in trace.executed_predicates or pid in imp.executed_predicates:
+        if pid not in trace.executed_predicates or meta.line_no in imp_lines:
             continue
         if trace.true_distances.get(pid) == 0.0:
             rep.add((meta.line_no, True))
@@ -110,7 +116,18 @@ def bounded_c03(tier, seed):
     return guarded(p, lambda part, t, s: run_hprog(part, t, s, judge_branches, ("B", "BL")), tier, seed)
 
 
-BOUNDED = [bounded_c03]
+def bounded_stdlib(tier, seed):
+    from . import hstd
+    p = Part("C03", "stdlib-corpus", [f"{TRC}:ExecutionTracer.executed_compare_predicate", f"{TRC}:ExecutionTracer.executed_bool_predicate",
+                                      f"{TRC}:ExecutionTracer.executed_exception_match",
+                                      "pynguin.instrumentation.version.python3_12:BranchCoverageInstrumentation"],
+             scope=hstd.SCOPE_TEXT + "; sys.monitoring BRANCH events of the uninstrumented copy against the covered (predicate, outcome) "
+                   "pairs and branch-less code object entries of the instrumented copy, under {BRANCH} and {BRANCH, LINE}",
+             bound="the listed modules and calls")
+    return guarded(p, lambda part, t, s: hstd.run_corpus(part, t, s, "C03", "c03", "judge_branches", ("B", "BL")), tier, seed)
+
+
+BOUNDED = [bounded_c03, bounded_stdlib]
 META = {"level": "other", "explanation": "bounded differential contract check: the interpreter's own branch events are the oracle",
         "rule": "one case per (function, argument vector, metric set)"}
 
